@@ -56,12 +56,22 @@ class FakeBinascii:
 
 def module_name(inp, order):
     """inp: dict(sources, preamble, kwds=[[k, v]...], tag, generic); order: permutation of kwds indices"""
-    ffi = cffi.FFI()
     import warnings
+
+    def build(items):
+        f = cffi.FFI()
+        for it in items:
+            if isinstance(it, dict):
+                f.include(build(it["inc"]))
+            else:
+                f.cdef(it)
+        return f
     with warnings.catch_warnings():
         warnings.simplefilter("ignore")
-        for s in inp["sources"]:
-            ffi.cdef(s)
+        try:
+            ffi = build(inp["tree"] if "tree" in inp else inp["sources"])
+        except Exception as e:
+            return dict(exc="cdef:" + exc_class(e))
     kw = {}
     for i in order:
         k, v = inp["kwds"][i]
